@@ -21,7 +21,7 @@ fn spec(t: Tier) -> Spec {
     Spec {
         id: "C09",
         level: "exploration",
-        rule: format!("files named by every string of <= {} characters over {:?} (plus '{{}}', '-a', 'a b', \"a'b\") in one directory, and a directory of names that are not valid UTF-8 (bytes ff, c3, a ff b); argument templates = every list of <= {} arguments over the pieces {:?}; child outcomes {:?} (scripted per invocation; 'missing' = command does not exist); positions of the action {:?}; -exec and -execdir. Slices: all templates x all names (outcome 0, both primaries); all outcomes x positions x primaries on 3 templates with outcomes alternating per file; a binary slice through the find binary. The recorder child logs its argv and cwd: there must be exactly one run per entry on which the action is reached, in visit order (-sorted), each argument = the template with every '{{}}' replaced by the path (t/NAME, or ./NAME with cwd = the parent directory for -execdir) and all other text unchanged, element for element byte-identical; a following labelled -printf fires exactly for the entries whose child exited 0; find's exit status stays 0 whatever the children do. evaluation = one child invocation checked; PATH slice: the command named without a slash, PATH listing first a directory with a non-executable file / a directory of that name and then the real command (-exec/-execdir, ; and +): it must be run as exec would; interleaving slice: `-printf '%p ' -exec echo X ;` (also -execdir, text before and after the action, the {{}} + form) through the binary with standard output a pipe — find's own text for an entry must precede the output of the command run for it; scale templates: one argument holding {{}} 5, 8, 9, 12 and 20 times, 30 arguments {{}}, 70 000 bytes of literal text before and 100 000 after a {{}}; non-trivial = name with a character other than a and .", t.pick(1, 2), ALPHA, t.pick(2, 3), PIECES, OUTCOMES, POSITIONS),
+        rule: format!("files named by every string of <= {} characters over {:?} (plus '{{}}', '-a', 'a b', \"a'b\") in one directory, and a directory of names that are not valid UTF-8 (bytes ff, c3, a ff b); argument templates = every list of <= {} arguments over the pieces {:?}; child outcomes {:?} (scripted per invocation; 'missing' = command does not exist); positions of the action {:?}; -exec and -execdir. Slices: all templates x all names (outcome 0, both primaries); all outcomes x positions x primaries on 3 templates with outcomes alternating per file; a binary slice through the find binary. The recorder child logs its argv and cwd: there must be exactly one run per entry on which the action is reached, in visit order (-sorted), each argument = the template with every '{{}}' replaced by the path (t/NAME, or ./NAME with cwd = the parent directory for -execdir) and all other text unchanged, element for element byte-identical; a following labelled -printf fires exactly for the entries whose child exited 0; find's exit status stays 0 whatever the children do. evaluation = one child invocation checked; PATH slice: the command named without a slash, PATH listing first a directory with a non-executable file / a directory of that name and then the real command (-exec/-execdir, ; and +): it must be run as exec would; interleaving slice: `-printf '%p ' -exec echo X ;` (also -execdir, text before and after the action, the {{}} + form) through the binary with standard output a pipe — find's own text for an entry must precede the output of the command run for it; scale templates: one argument holding {{}} 5, 8, 9, 12 and 20 times, 30 arguments {{}}, 70 000 bytes of literal text before and 100 000 after a {{}}; a command that cannot be started for some files only (-execdir ./tool on five directories of which the 1st, 3rd and 5th hold ./tool; -exec/-execdir with {{}} x 600 in one argument and one 250-byte name among short ones): the files before and after get their invocation, the action is false exactly where the command could not be started, find's status stays 0; non-trivial = name with a character other than a and .", t.pick(1, 2), ALPHA, t.pick(2, 3), PIECES, OUTCOMES, POSITIONS),
         bound: json!({"max_name_len": t.pick(1, 2), "max_template_args": t.pick(2, 3), "outcomes": OUTCOMES, "positions": POSITIONS}),
         assumptions: vec!["the labelled -printf (truth value) is only used on names that are valid UTF-8; tmpfs; -sorted pins the visit order; children are real processes (fork+exec per file)".into()],
         shards: 0,
@@ -376,6 +376,10 @@ fn run(ctx: &mut Ctx) {
     if ctx.shard == 4 % ctx.nshards {
         path_lookup_slice(ctx);
     }
+    // slice 2e': a command that cannot be started for some files only, between files for which it can
+    if ctx.shard == 6 % ctx.nshards {
+        start_failure_history(ctx, "C09", ";");
+    }
     // slice 2f: -execdir on the root directory, however it is spelled, runs in the root directory
     if ctx.shard == 5 % ctx.nshards {
         let log = ctx.sbx.join(".mc-vrec.log");
@@ -483,6 +487,90 @@ fn path_lookup_slice(ctx: &mut Ctx) {
     let _ = crate::sandbox::force_remove(&base);
 }
 
+/// A command that cannot be started for SOME files only, between files for which it can: under
+/// -execdir the program `./tool` exists in the directories a, c and e but not in b and d; under -exec
+/// one argument is `{}` 600 times, which exceeds the kernel's per-argument limit for one 250-byte
+/// name only. Every file for which the command can be started gets its invocation (right argument,
+/// right working directory), before and after the failures. `term` is ";" (C09: the action is false
+/// where the command could not be started, find's status stays 0) or "+" (C08: the action is always
+/// true, find's status is non-zero).
+pub fn start_failure_history(ctx: &mut Ctx, prop: &str, term: &str) {
+    use std::os::unix::fs::PermissionsExt;
+    let sbx = ctx.sbx.clone();
+    let base = sbx.join("sf");
+    let _ = crate::sandbox::force_remove(&base);
+    for d in ["a", "b", "c", "d", "e"] {
+        std::fs::create_dir_all(base.join("t").join(d)).unwrap();
+        std::fs::write(base.join("t").join(d).join(format!("f{d}")), b"").unwrap();
+    }
+    for d in ["a", "c", "e"] {
+        let tool = base.join("t").join(d).join("tool");
+        std::fs::copy(crate::engine::self_bin_dir().join("vrec"), &tool).unwrap();
+        std::fs::set_permissions(&tool, std::fs::Permissions::from_mode(0o755)).unwrap();
+    }
+    let log = sbx.join(".mc-vrec.log");
+    let run = |args: &[String]| {
+        let _ = std::fs::remove_file(&log);
+        let aos: Vec<&OsStr> = args.iter().map(OsStr::new).collect();
+        let o = crate::binrun::run(&crate::binrun::repo_bin("find"), &aos, &base, &crate::binrun::Opts { timeout_s: 60, ..Default::default() });
+        (o, crate::vreclog::read(&log).unwrap_or_default())
+    };
+    for order in ["-sorted", "-depth"] {
+        let args: Vec<String> = ["t", "-sorted", order, "-type", "f", "!", "-name", "tool", "-execdir", "./tool", &log.display().to_string(), "{}", term, "-print"].iter().map(|s| s.to_string()).collect();
+        let (o, recs) = run(&args);
+        ctx.rep.evaluations += 1;
+        ctx.rep.nontrivial += 1;
+        ctx.rep.count("start_failure_history_cases", 1);
+        let got: Vec<(String, String)> = recs.iter().map(|r| (String::from_utf8_lossy(&r.cwd).to_string(), r.args.iter().map(|a| String::from_utf8_lossy(a).to_string()).collect::<Vec<_>>().join(" "))).collect();
+        let want: Vec<(String, String)> = ["a", "c", "e"].iter().map(|d| (base.join("t").join(d).display().to_string(), format!("./f{d}"))).collect();
+        let printed: Vec<String> = String::from_utf8_lossy(&o.out).lines().map(String::from).collect();
+        let want_printed: Vec<String> = if term == ";" { ["a", "c", "e"].iter().map(|d| format!("t/{d}/f{d}")).collect() } else { ["a", "b", "c", "d", "e"].iter().map(|d| format!("t/{d}/f{d}")).collect() };
+        let status_ok = if term == ";" { o.code == Some(0) } else { matches!(o.code, Some(c) if c != 0) };
+        if got != want || printed != want_printed || !status_ok {
+            let what = if got != want {
+                "the command is not run (or not in the right directory) for files met after one for which it could not be started"
+            } else if printed != want_printed {
+                "the action's truth value is wrong after a command that could not be started"
+            } else {
+                "find's exit status is wrong"
+            };
+            ctx.rep.violation(
+                &format!("{prop} -execdir ./tool {{}} {term} where ./tool exists in some directories only: {what}"),
+                format!("find {:?} (./tool exists in t/a, t/c, t/e): status {:?}\ninvocations (cwd, args) {:?}\nexpected {:?}\nprinted {:?} expected {:?}\nstderr {:?}", args, o.code, got, want, printed, want_printed, String::from_utf8_lossy(&o.err)),
+                json!({"prop":prop,"start_failure_history":true}),
+            );
+        }
+    }
+    if term == ";" {
+        let t2 = base.join("t2");
+        std::fs::create_dir_all(&t2).unwrap();
+        let long = format!("b{}", "x".repeat(249));
+        for n in ["a1", long.as_str(), "c1", "d1"] {
+            std::fs::write(t2.join(n), b"").unwrap();
+        }
+        let vrec = crate::engine::self_bin_dir().join("vrec");
+        for prim in ["-exec", "-execdir"] {
+            let args: Vec<String> = vec!["t2".into(), "-sorted".into(), "-type".into(), "f".into(), prim.into(), vrec.display().to_string(), log.display().to_string(), "{}".repeat(600), ";".into(), "-print".into()];
+            let (o, recs) = run(&args);
+            ctx.rep.evaluations += 1;
+            ctx.rep.nontrivial += 1;
+            ctx.rep.count("start_failure_history_cases", 1);
+            let shown = |n: &str| if prim == "-exec" { format!("t2/{n}") } else { format!("./{n}") };
+            let want: Vec<Vec<u8>> = ["a1", "c1", "d1"].iter().map(|n| shown(n).repeat(600).into_bytes()).collect();
+            let got: Vec<Vec<u8>> = recs.iter().map(|r| r.args.concat()).collect();
+            let printed: Vec<String> = String::from_utf8_lossy(&o.out).lines().map(String::from).collect();
+            if got != want || printed != ["t2/a1", "t2/c1", "t2/d1"] || o.code != Some(0) {
+                ctx.rep.violation(
+                    &format!("{prop} {prim} with an argument too long for ONE file: the files met after it are not handled as before it"),
+                    format!("find t2 -sorted -type f {prim} vrec LOG '{{}}'x600 ; -print (names a1, b+249 x, c1, d1): status {:?}, {} invocation(s) with argument lengths {:?} (expected 3 of {:?}), printed {:?}; stderr {:?}", o.code, got.len(), got.iter().map(|g| g.len()).collect::<Vec<_>>(), want.iter().map(|g| g.len()).collect::<Vec<_>>(), printed, String::from_utf8_lossy(&o.err).lines().take(3).collect::<Vec<_>>()),
+                    json!({"prop":prop,"start_failure_history":true}),
+                );
+            }
+        }
+    }
+    let _ = crate::sandbox::force_remove(&base);
+}
+
 fn nonutf8_slice(ctx: &mut Ctx, job: &mut u64) {
     let ns = names(0);
     let ts = templates(2);
@@ -510,6 +598,10 @@ fn nonutf8_slice(ctx: &mut Ctx, job: &mut u64) {
 fn replay(case: &Value, ctx: &mut Ctx) -> Option<String> {
     if case["path_lookup"] == true {
         path_lookup_slice(ctx);
+        return ctx.rep.violations.keys().next().cloned();
+    }
+    if case["start_failure_history"] == true {
+        start_failure_history(ctx, "C09", ";");
         return ctx.rep.violations.keys().next().cloned();
     }
     if case["interleaving"] == true {
